@@ -152,6 +152,8 @@ func runC07(p *Prog, r *Report, tier string) {
 	if nT < 2 {
 		r.Undecided("R-OWNER.ready", "anchor: ReadyToSend = true stores", "pkg/intermediate/aggregate.go", fmt.Sprintf("found %d, expected creation and correlation", nT))
 	}
+	checkReadyAtOnce(p, r, "R-OWNER.ready-at-once")
+	checkSingleSuccessExit(p, r, "R-OWNER.every-record-applied")
 	// (3) retries
 	nW := 0
 	for _, f := range p.RepoFns {
@@ -472,4 +474,107 @@ func checkCorrelationTable(p *Prog, r *Report, f *ssa.Function) {
 		r.OK("R-TABLE.correlation", fnKey(f)+": decision table", p.pos(f.Pos()), fmt.Sprintf("all %d combinations of (flow type, egress action, ingress action) agree with InterNode && !egressDenied && !ingressRejected", n), true)
 	}
 	r.Facts["correlation_table_cases"] = n
+}
+
+// checkReadyAtOnce: a new flow that needs no correlation is ready at once - on EVERY path of the !correlationRequired
+// branch the fresh record gets ReadyToSend = true before it is put into the map (not only for some flow types).
+func checkReadyAtOnce(p *Prog, r *Report, rule string) {
+	add := p.Fn("(*pkg/intermediate.AggregationProcess).addOrUpdateRecordInMap")
+	icr := p.Fn("pkg/intermediate.isCorrelationRequired")
+	if add == nil || icr == nil {
+		r.Undecided(rule, "anchor: addOrUpdateRecordInMap / isCorrelationRequired", "pkg/intermediate/aggregate.go", "not found")
+		return
+	}
+	var fresh *ssa.Alloc
+	eachInstr(add, func(in ssa.Instruction) {
+		if al, ok := in.(*ssa.Alloc); ok && al.Heap && typeName(al.Type()) == "pkg/intermediate.AggregationFlowRecord" {
+			fresh = al
+		}
+	})
+	if fresh == nil {
+		r.Undecided(rule, "anchor: new AggregationFlowRecord", p.pos(add.Pos()), "not found")
+		return
+	}
+	isIns := func(x ssa.Instruction) bool {
+		mu, ok := x.(*ssa.MapUpdate)
+		if !ok {
+			return false
+		}
+		tn, fn, _, ok := loadedField(mu.Map)
+		return ok && tn+"."+fn == "pkg/intermediate.AggregationProcess.flowKeyRecordMap"
+	}
+	n := 0
+	for _, b := range add.Blocks {
+		i := ifOf(b)
+		if i == nil || !fresh.Block().Dominates(b) {
+			continue
+		}
+		cond, noCorr := i.Cond, 1
+		if u, ok := cond.(*ssa.UnOp); ok && u.Op == token.NOT {
+			cond, noCorr = u.X, 0
+		}
+		c, ok := cond.(*ssa.Call)
+		if !ok || c.Call.StaticCallee() != icr {
+			continue
+		}
+		n++
+		q := &pathQuery{noExit: true, terminal: isIns, discharge: func(x ssa.Instruction) bool {
+			st, ok := x.(*ssa.Store)
+			if !ok || !isRTS(st.Addr) {
+				return false
+			}
+			_, _, base, _ := fieldOf(st.Addr)
+			cv, isC := st.Val.(*ssa.Const)
+			return base == ssa.Value(fresh) && isC && cv.Value != nil && constant.BoolVal(cv.Value)
+		}}
+		trail, bad := q.findFromBlock(b.Succs[noCorr])
+		if bad {
+			r.Violation(rule, fnKey(add)+": new flow without correlation is ready at once", p.instrPos(i), "a path of the !correlationRequired branch reaches the map insertion without ReadyToSend = true: such a flow (e.g. an inter-node flow denied at egress) is never handed to the export callback and is dropped after the retries; path "+p.describePath(add, trail))
+		} else {
+			r.OK(rule, fnKey(add)+": new flow without correlation is ready at once", p.instrPos(i), "every path of the !correlationRequired branch sets ReadyToSend = true before the insertion", true)
+		}
+	}
+	if n == 0 {
+		r.Undecided(rule, fnKey(add)+": branch on correlationRequired after the record is created", p.pos(add.Pos()), "not found")
+	}
+}
+
+// checkSingleSuccessExit: every record that is accepted is applied: addOrUpdateRecordInMap returns nil only after the
+// map insertion at its end. An earlier `return nil` (a "stale record" / "nothing new" fast path) silently discards a
+// record - its deltas, its correlation fields, its refresh of the inactive deadline.
+func checkSingleSuccessExit(p *Prog, r *Report, rule string) {
+	add := p.Fn("(*pkg/intermediate.AggregationProcess).addOrUpdateRecordInMap")
+	if add == nil {
+		r.Undecided(rule, "anchor: addOrUpdateRecordInMap", "pkg/intermediate/aggregate.go", "not found")
+		return
+	}
+	var ins ssa.Instruction
+	eachInstr(add, func(x ssa.Instruction) {
+		if mu, ok := x.(*ssa.MapUpdate); ok {
+			if tn, fn, _, ok := loadedField(mu.Map); ok && tn+"."+fn == "pkg/intermediate.AggregationProcess.flowKeyRecordMap" {
+				ins = x
+			}
+		}
+	})
+	if ins == nil {
+		r.Undecided(rule, fnKey(add)+": map insertion", p.pos(add.Pos()), "not found")
+		return
+	}
+	n := 0
+	eachInstr(add, func(x ssa.Instruction) {
+		rt, ok := x.(*ssa.Return)
+		if !ok {
+			return
+		}
+		isNil, has := retErrNil(rt)
+		if !has || !isNil {
+			return
+		}
+		n++
+		r.Check(dominates(ins, x), rule, fmt.Sprintf("%s: success return #%d", fnKey(add), n), p.instrPos(x), "after the map insertion",
+			"the function reports success without having stored the (updated) flow record: the incoming record is silently discarded on this path", true)
+	})
+	if n == 0 {
+		r.Undecided(rule, fnKey(add)+": success returns", p.pos(add.Pos()), "none found")
+	}
 }
